@@ -42,6 +42,7 @@ import (
 	"github.com/ccbrown/api-fu/graphql/validator"
 	jsoniter "github.com/json-iterator/go"
 
+	"verifharness/gqlgen"
 	"verifharness/hx"
 )
 
@@ -56,6 +57,10 @@ type Case struct {
 	Mode      int    `json:"mode"`
 	Async     bool   `json:"async"`
 	MaxCost   int    `json:"max_cost"`
+	// Gen != 0: the case runs against a schema, variables and world regenerated from this seed with
+	// harness/gqlgen (random schemas: interfaces, unions, enums, list/non-null nesting) instead of the
+	// kitchen-sink schema; Query is the printed (and possibly mutated) document.
+	Gen uint64 `json:"gen,omitempty"`
 }
 
 func (c Case) query() string { s, _ := strconv.Unquote(c.Query); return s }
@@ -79,6 +84,40 @@ func genCase(seed int64, idx int) Case {
 	c.Entry = hx.Pick(r, []string{"execute", "execute", "execute", "execute", "pv", "subscribe", "http-get", "http-post", "http-graphql"})
 	q := hx.Pick(r, seedQueries)
 	k := r.Intn(100)
+	if r.Chance(1, 6) {
+		// random schema + type-directed document + world from the shared generators (C01's), then the same
+		// token-level mutations as below half of the time
+		c.Gen = r.Uint64() | 1
+		g := newGenCase(c.Gen)
+		c.Kind = "gqlgen"
+		c.Entry = hx.Pick(r, []string{"execute", "execute", "execute", "pv", "subscribe"})
+		c.Async = false
+		q = g.query
+		c.Op = g.req.OpName
+		if b, err := json.Marshal(g.req.Variables); err == nil && len(g.req.Variables) > 0 {
+			c.Vars = string(b)
+		}
+		if r.Bool() {
+			c.Kind = "gqlgen-mut"
+			toks := tokRe.FindAllString(q, -1)
+			for n := r.Range(1, 3); n > 0 && len(toks) > 0; n-- {
+				i := r.Intn(len(toks))
+				switch r.Intn(4) {
+				case 0:
+					toks = append(toks[:i], toks[i+1:]...)
+				case 1:
+					toks = append(toks[:i+1], toks[i:]...)
+				case 2:
+					toks[i] = hx.Pick(r, tokenPool)
+				default:
+					toks = append(toks[:i], append([]string{hx.Pick(r, tokenPool)}, toks[i:]...)...)
+				}
+			}
+			q = strings.Join(toks, "")
+		}
+		c.Query = strconv.Quote(q)
+		return c
+	}
 	switch {
 	case k < 10:
 		c.Kind = "seed"
@@ -351,6 +390,18 @@ func runCase(c Case) (fail string) {
 			fail = fmt.Sprintf("panic: %v\n%s", p, firstFrames(st))
 		}
 	}()
+	sch := theSchema
+	var initial interface{}
+	if c.Gen != 0 {
+		g := newGenCase(c.Gen)
+		if g.built == nil {
+			return ""
+		}
+		sch = g.built.Schema
+		if g.world != nil {
+			initial = g.world.Node()
+		}
+	}
 	var vars map[string]interface{}
 	if c.Vars != "" {
 		if err := json.Unmarshal([]byte(c.Vars), &vars); err != nil {
@@ -367,7 +418,7 @@ func runCase(c Case) (fail string) {
 	switch c.Entry {
 	case "pv":
 		var actual int
-		doc, errs := graphql.ParseAndValidate(q, theSchema, nil, graphql.ValidateCost(c.Op, vars, c.MaxCost, &actual, graphql.FieldCost{Resolver: 1}))
+		doc, errs := graphql.ParseAndValidate(q, sch, nil, graphql.ValidateCost(c.Op, vars, c.MaxCost, &actual, graphql.FieldCost{Resolver: 1}))
 		if doc == nil && len(errs) == 0 {
 			return "ParseAndValidate returned neither a document nor errors"
 		}
@@ -379,14 +430,14 @@ func runCase(c Case) (fail string) {
 		}
 		return ""
 	case "execute":
-		resp := graphql.Execute(&graphql.Request{Context: context.Background(), Query: q, Schema: theSchema, OperationName: c.Op, VariableValues: vars, IdleHandler: idle})
+		resp := graphql.Execute(&graphql.Request{Context: context.Background(), Query: q, Schema: sch, OperationName: c.Op, VariableValues: vars, IdleHandler: idle, InitialValue: initial})
 		if f := checkResponse(resp); f != "" {
 			return f
 		}
-		lastAdm = envelopeRequest(q, c.Op, vars, resp)
+		lastAdm = envelopeRequest(sch, q, c.Op, vars, resp)
 		return ""
 	case "subscribe":
-		req := &graphql.Request{Context: context.Background(), Query: q, Schema: theSchema, OperationName: c.Op, VariableValues: vars, IdleHandler: idle}
+		req := &graphql.Request{Context: context.Background(), Query: q, Schema: sch, OperationName: c.Op, VariableValues: vars, IdleHandler: idle, InitialValue: initial}
 		v, errs := graphql.Subscribe(req)
 		if len(errs) > 0 {
 			if _, err := json.Marshal(errs); err != nil {
@@ -448,16 +499,16 @@ func runCase(c Case) (fail string) {
 
 // envelopeRequest observes the pre-execution stage outcomes through the exported stage functions and
 // the shape of the response, as a request line for the driver's envelope acceptor.
-func envelopeRequest(q, op string, vars map[string]interface{}, resp *graphql.Response) string {
+func envelopeRequest(sch *graphql.Schema, q, op string, vars map[string]interface{}, resp *graphql.Response) string {
 	parseErrs, valErrs, setupOk := 0, 0, true
 	doc, perrs := parser.ParseDocument([]byte(q))
 	parseErrs = len(perrs)
 	if parseErrs == 0 {
-		valErrs = len(validator.ValidateDocument(doc, theSchema, nil))
+		valErrs = len(validator.ValidateDocument(doc, sch, nil))
 		if valErrs == 0 {
 			if o, err := executor.GetOperation(doc, op); err != nil {
 				setupOk = false
-			} else if _, err := validator.CoerceVariableValues(theSchema, nil, o, vars); err != nil {
+			} else if _, err := validator.CoerceVariableValues(sch, nil, o, vars); err != nil {
 				setupOk = false
 			}
 		}
@@ -473,7 +524,51 @@ func envelopeRequest(q, op string, vars map[string]interface{}, resp *graphql.Re
 		b, _ := json.Marshal(*resp.Data)
 		dataNull = string(b) == "null"
 	}
-	return fmt.Sprintf("(admissible %d %d %v true %v %v %d)", parseErrs, valErrs, setupOk, resp.Data != nil, dataNull, len(resp.Errors))
+	rootOk := true
+	if parseErrs == 0 && valErrs == 0 && setupOk {
+		if o, err := executor.GetOperation(doc, op); err == nil && o.OperationType != nil {
+			switch o.OperationType.Value {
+			case "mutation":
+				rootOk = sch.MutationType() != nil
+			case "subscription":
+				rootOk = sch.SubscriptionType() != nil
+			}
+		}
+	}
+	return fmt.Sprintf("(admissible %d %d %v %v %v %v %d)", parseErrs, valErrs, setupOk, rootOk, resp.Data != nil, dataNull, len(resp.Errors))
+}
+
+// genCase is what a Gen seed regenerates (deterministically): schema, request, printed query, world.
+type genCaseT struct {
+	built *gqlgen.Built
+	req   *gqlgen.Request
+	query string
+	world *gqlgen.Outcome
+}
+
+func newGenCase(seed uint64) (g genCaseT) {
+	defer func() {
+		if p := recover(); p != nil { // a generator hiccup is not the library's crash
+			g = genCaseT{req: &gqlgen.Request{Doc: &gqlgen.DocDesc{}}, query: "{__typename}"}
+		}
+	}()
+	r := hx.NewRand(seed)
+	desc := gqlgen.RandomSchema(r)
+	g.req = gqlgen.RandomRequest(r, desc)
+	g.query = g.req.Doc.Print(gqlgen.RandomLayout(r))
+	b, err := gqlgen.Build(desc)
+	if err != nil {
+		return g
+	}
+	g.built = b
+	op := g.req.Doc.SelectedOp(g.req.OpName)
+	if op == nil && len(g.req.Doc.Ops) > 0 {
+		op = &g.req.Doc.Ops[0]
+	}
+	if op != nil {
+		g.world = gqlgen.RandomWorld(r, desc, g.req, op)
+	}
+	return g
 }
 
 type harnessBug string
